@@ -31,6 +31,7 @@ import Kanzi.Drv.Huffman
 import Kanzi.Drv.UTF
 import Kanzi.Drv.BWTS
 import Kanzi.Drv.ImageGen2
+import Kanzi.Drv.EXE
 
 open Kanzi
 
@@ -211,5 +212,6 @@ def main (args : List String) : IO UInt32 := do
   | ["utf"] => loop stdin stdout Kanzi.Drv.utf; return 0
   | ["bwts"] => loop stdin stdout Kanzi.Drv.bwts; return 0
   | ["imagegen2"] => loop stdin stdout Kanzi.Drv.imagegen2; return 0
+  | ["exe"] => loop stdin stdout Kanzi.Drv.exe; return 0
   | ["image"] => loop stdin stdout Kanzi.Drv.image; return 0
   | _ => IO.eprintln "usage: kmodel <norm>"; return 2
